@@ -29,6 +29,17 @@ pub fn eval_tm(t: &Tm, env: &BTreeMap<S, u32>, p: u32) -> u32 {
             }
             acc
         }
+        "sumr" => {
+            let r = eval_tm(&t.kids[0].t, env, p);
+            let x = t.kids[1].binders[0];
+            let mut e = env.clone();
+            let mut acc = 0;
+            for v in 0..p {
+                e.insert(x, v);
+                acc = (acc + eval_tm(&t.kids[1].t, &e, p)) % p;
+            }
+            (r * acc) % p
+        }
         "let" => {
             let x = t.kids[0].binders[0];
             let ve = eval_tm(&t.kids[1].t, env, p);
@@ -125,6 +136,14 @@ pub fn eval_node(n: &LA, env: &HashMap<Slot, u32>, redundant: &dyn Fn(Slot) -> u
                 acc = (acc + child(&b.elem, &[(b.slot, v)])?) % p;
             }
             acc
+        }
+        LA::Sumr(r, b) => {
+            let rv = child(r, &[])?;
+            let mut acc = 0;
+            for v in 0..p {
+                acc = (acc + child(&b.elem, &[(b.slot, v)])?) % p;
+            }
+            (rv * acc) % p
         }
         LA::Let(b, e) => {
             let ve = child(e, &[])?;
